@@ -149,6 +149,92 @@ def run(F, tier, res):
             res.violate('WORDS', 'field=%s;ambiguous' % f, 'the word %r printed for %s also sets %s when parsed' % (w, f, sorted(extra)), where=F.bodies[P]['mir']['span']['at'])
             continue
         ok += 1
+    # ORDER: attribute words commute ("in any order"): inside the per-word loop every write to an attribute flag (the bools returned
+    # next to the style, and the is_* fields of the ansi_term style) is the constant `true` - set-only, so no word can undo or
+    # depend on another one whatever their order
+    no_ = oko_ = 0
+    blocksP = F.blocks(P)
+    mirP = F.bodies[P]['mir']
+    ret_flags = set()
+    for blk in blocksP:
+        for st in blk['s']:
+            if st[0] == 'assign' and st[1]['l'] == 0 and not st[1]['p'] and st[2][0] == 'agg' and st[2][1][0] == 'tuple':
+                for o in st[2][2]:
+                    pl = o.get('move') or o.get('copy')
+                    if pl and not pl['p'] and mirP['locals'][pl['l']] == 'bool':
+                        ret_flags.add(pl['l'])
+                        # follow one copy back (the tuple is built from copies of the flag locals)
+                        for (dbb, kind, payload) in F.local_defs(P).get(pl['l'], []):
+                            if kind == 'assign' and payload[0] == 'use':
+                                q_ = payload[1].get('copy') or payload[1].get('move')
+                                if q_ and not q_['p']:
+                                    ret_flags.add(q_['l'])
+    heads = [i for i, c in F.calls(P) if callee_of(c).endswith('Iterator>::next')]
+    S_ = F.cfg(P)
+    loop = set()
+    for h in heads:
+        fwd = reach(S_, S_.get(h, []))
+        loop |= {b for b in fwd if h in reach(S_, S_.get(b, []))}
+    writes = {}      # flag key -> [(bb, is_const_true)]
+    bool_writes = {}  # any bool local -> [(bb, is_const_true)] (to recognise the single-shot slot guards `seen_*`)
+    for bi in sorted(loop):
+        blk = blocksP[bi]
+        if blk['cleanup']:
+            continue
+        for st in blk['s']:
+            if st[0] != 'assign':
+                continue
+            tgt = st[1]
+            rv = st[2]
+            ct = rv[0] == 'use' and 'const' in rv[1] and rv[1]['const'].get('repr') in ('true', 'const true')
+            if not tgt['p'] and mirP['locals'][tgt['l']] == 'bool':
+                bool_writes.setdefault(tgt['l'], []).append((bi, ct))
+            is_flag = (not tgt['p'] and tgt['l'] in ret_flags) or (tgt['p'] and tgt['p'][-1][0] == 'field' and str(tgt['p'][-1][3]).startswith('is_') and 'Style' in str(tgt['p'][-1][2]))
+            if not is_flag:
+                continue
+            nm = tgt['p'][-1][3] if tgt['p'] else next((n_[0] for n_ in mirP.get('names', []) if n_[1]['l'] == tgt['l'] and not n_[1]['p']), '_%d' % tgt['l'])
+            writes.setdefault(nm, []).append((bi, ct))
+    # slot guards: switches on a bool local that is not an output flag and is only ever set to true inside the loop (seen_foreground, ...):
+    # the false edge is taken at most once per style string
+    slot_edges = []
+    for (sb, op, arms, other) in Ru.switches(F, P):
+        if sb not in loop:
+            continue
+        pl = op.get('copy') or op.get('move')
+        cand = set()
+        for r in F.trace(P, op):
+            if r[0] == 'local' or r[0] == 'other':
+                pass
+        # resolve the switched local through one copy
+        L = None
+        if pl and not pl['p']:
+            L = pl['l']
+            for (dbb, kind, payload) in F.local_defs(P).get(L, []):
+                if kind == 'assign' and payload[0] in ('use', 'unop'):
+                    src = payload[1] if payload[0] == 'use' else payload[2]
+                    q_ = src.get('copy') or src.get('move') if isinstance(src, dict) else None
+                    if q_ and not q_['p'] and q_['l'] in bool_writes:
+                        L = q_['l']
+        if L is None or L in ret_flags or L not in bool_writes or not all(ct for _, ct in bool_writes[L]):
+            continue
+        tt, ft = Ru.bool_edges(arms, other)
+        if Ru.negations(F, P, op) % 2 == 1:
+            tt, ft = ft, tt
+        if ft is not None and any(wb in reach(S_, ft) for wb, _ in bool_writes[L]):
+            slot_edges.append((sb, ft))
+    for nm, ws in sorted(writes.items()):
+        for (bi, ct) in ws:
+            no_ += 1
+        if all(ct for _, ct in ws):
+            oko_ += len(ws)
+            continue
+        single_slot = any(all(Ru.edge_dominates(F, P, sb, e, bi) or e == bi for bi, _ in ws) for (sb, e) in slot_edges)
+        if single_slot:
+            oko_ += len(ws)
+        else:
+            res.violate('ORDER', 'fn=%s;flag=%s' % (P, nm), 'inside the per-word loop the attribute flag `%s` is assigned something other than the constant true, and not all of its '
+                        'writes sit in one positional colour slot: the meaning of a style string then depends on the order of its words' % nm, where=F.bodies[P]['mir']['span']['at'])
+    res.rule('C12.ORDER', no_, 8, 'writes to attribute flags inside the style parser\'s word loop: each is `= true`', discharged=oko_)
     res.rule('C12.WORDS', n, 10, 'attributes / flags the parser can set (%s), each printed with a word that parses back to it' % sorted(field_words), discharged=ok,
              samples=['%s <- %s ; printed %s' % (f, sorted(field_words[f]), dt.get(f)) for f in sorted(field_words)])
     # ---------- SLOTS
